@@ -66,11 +66,14 @@ func (c06Sys) Letters(s *c06State) []engine.Letter {
 	return ls
 }
 
-// c06Msg builds the finalize message for a sequence: seq 2 has a malformed recipient (refund path);
+// c06Msg builds the finalize message for a sequence: seq 2 has a malformed recipient (refund path),
+// seq 3 is credited but carries an undecodable hook (minted, reclaimed, burnt, refunded);
 // "altered" content differs in recipient and amount from what was (or will be) processed.
+// toName == "" means the deposit ends in a refund.
 func c06Msg(seq uint64, by string, variant int) (*opchildtypes.MsgFinalizeTokenDeposit, string, int64) {
 	to := world.Addr("alice").String()
 	toName := "alice"
+	var data []byte
 	if seq == 2 {
 		to, toName = "garbage-recipient", ""
 	}
@@ -78,8 +81,10 @@ func c06Msg(seq uint64, by string, variant int) (*opchildtypes.MsgFinalizeTokenD
 	if variant == 1 {
 		amt += 10
 		to, toName = world.Addr("bob").String(), "bob"
+	} else if seq == 3 {
+		data, toName = []byte{0xde, 0xad}, ""
 	}
-	return opchildtypes.NewMsgFinalizeTokenDeposit(world.Addr(by).String(), "l1sender", to, sdk.NewInt64Coin(c06Denom, amt), seq, 5, "uxx", nil), toName, amt
+	return opchildtypes.NewMsgFinalizeTokenDeposit(world.Addr(by).String(), "l1sender", to, sdk.NewInt64Coin(c06Denom, amt), seq, 5, "uxx", data), toName, amt
 }
 
 func (c06Sys) Step(s *c06State, l engine.Letter) (*c06State, string, *engine.Violation) {
@@ -249,7 +254,7 @@ func init() {
 				return res
 			}
 			res.Absorb("c06", rep)
-			res.Coverage["alphabet"] = "Deliver(seq∈1..4, by∈{e1,e2,stranger}, content∈{orig,altered}) (seq 2 has a malformed recipient); UserWithdraw; BankSend; SetExecutors({e2}|{e1,e2}) via ExecuteMessages"
+			res.Coverage["alphabet"] = "Deliver(seq∈1..4, by∈{e1,e2,stranger}, content∈{orig,altered}) (seq 2 has a malformed recipient, seq 3 a failing hook); UserWithdraw; BankSend; SetExecutors({e2}|{e1,e2}) via ExecuteMessages"
 			res.Coverage["oracle"] = "seq<next by an executor ⇒ NOOP, digest unchanged, no event; seq>next ⇒ error, unchanged; seq=next ⇒ SUCCESS, one finalize event, credited or refunded exactly once, next+1; non-executor ⇒ unauthorised, unchanged; NextL1Sequence/NextL2Sequence queries, balances and supply = model in every state"
 			res.Assumptions = []string{"schedules = all letter sequences up to the completed depth; two racing executors are interleavings of their letters"}
 			for _, k := range []string{"Deliver/noop", "Deliver/rejected-ahead", "Deliver/success-credited", "Deliver/success-refunded", "Deliver/rejected-unauthorised", "UserWithdraw/ok"} {
